@@ -261,7 +261,61 @@ class CatSuite(Suite):
         return case["t1"]["n"] + case["t2"]["n"] >= 4
 
 
-SUITES = [Redirect(), CatSuite()]
+class PathSuite(Suite):
+    """`transforms.path`: a root-to-tip path as a tree of its own, and reversed (re-rooted at its tip)"""
+    name = "c07.path"
+
+    def cases(self, rng, tier, widen):
+        out = []
+        k = 0
+        for n in [2, 3, 5, 8, 13] + ([30] if tier == "thorough" or widen else []):
+            for _ in range(2):
+                t = lattice(rng, n, gen.pick_shape(rng, k)); k += 1
+                out.append({"class": "path", "tree": t, "pick": rng.random()})
+        return out
+
+    def run(self, case):
+        from swcgeom.transforms import PathReverser, PathToTree
+
+        t = gen.make_tree(case["tree"])
+        before = {k: v.copy() for k, v in t.ndata.items()}
+        paths = t.get_paths()
+        p = paths[int(case["pick"] * len(paths))]
+        ids = [int(v) for v in p.get_ndata("id")]
+        pt = PathToTree()(p.detach())
+        rv = PathReverser()(t.get_paths()[int(case["pick"] * len(paths))].detach())
+        return {"ids": ids, "pt": {"pid": pt.pid().tolist(), "xyz": pt.xyz().astype(float).tolist(), "type": pt.type().tolist(), "r": [float(v) for v in pt.r()]},
+                "rv": {"xyz": np.asarray(rv.xyz()).astype(float).tolist(), "type": [int(v) for v in rv.type()], "r": [float(v) for v in rv.r()]},
+                "input_unchanged": bool(all(np.array_equal(before[k], t.ndata[k]) for k in before))}
+
+    def oracle(self, case, res):
+        t = case["tree"]
+        if "exc" in res:
+            return [("path-transform-raises", f"{res['exc']}: {res.get('msg')}")]
+        out = []
+        ids = res["ids"]
+        m = len(ids)
+        xyz = [[float(c) for c in t["xyz"][i]] for i in ids]
+        typ = [t["types"][i] for i in ids]
+        rr = [float(np.float32(t["r"][i])) for i in ids]
+        pt = res["pt"]
+        if pt["pid"] != [-1] + list(range(m - 1)) or pt["xyz"] != xyz or pt["type"] != typ or pt["r"] != rr:
+            out.append(("path-to-tree", f"PathToTree of the path {ids}: parents {pt['pid']}, the chain 0..{m - 1} with the path's attributes was expected"))
+        rv = res["rv"]
+        want_t = list(reversed(typ))
+        if m >= 1:
+            want_t[0], want_t[-1] = typ[0], typ[-1]        # only the two end types are exchanged by the re-rooting
+        if rv["xyz"] != list(reversed(xyz)) or rv["r"] != list(reversed(rr)) or rv["type"] != want_t:
+            out.append(("path-reversed", f"PathReverser of the path {ids}: positions {rv['xyz'][:3]}…, types {rv['type']}; expected the reversed path with the end types {typ[0]}, {typ[-1]} staying at the root / tip ends"))
+        if not res["input_unchanged"]:
+            out.append(("path-transform-mutates-input", "a path transform modified the tree the path came from"))
+        return out
+
+    def nontrivial(self, case, res):
+        return len(res.get("ids", [])) >= 3
+
+
+SUITES = [Redirect(), CatSuite(), PathSuite()]
 TECHNIQUE = ("Lean 4 theorems about the models of redirect_tree (root-path reversal: undirected edges preserved, unique new root, only two types exchanged) and "
              "cat_tree (row-by-row characterisation of the concatenated table: tree1 embedded, tree2 shifted and rigidly translated, junction link or merge, no other "
              "edge) composed with C05's sort theorems + differential correspondence + independent edge-set / rigid-motion oracle")
